@@ -38,7 +38,7 @@
       mailbox names that are not valid UTF-8, CONDSTORE items, negative numbers.
 -/
 import GoImap.Spec.CmdGrammar
-import GoImap.Lemmas.CmdGrammarFetch
+import GoImap.Lemmas.CmdGrammarPermFetch
 namespace GoImap.C02
 open GoImap.CmdGrammar GoImap.CmdSpec GoImap.CmdLemmas
 
@@ -282,5 +282,55 @@ example : FetchOK sampleFetch := by
 example : roundTrip {} {} 3 (.fetch true (.set [⟨1, 3⟩, ⟨7, 0⟩]) sampleFetch) =
     .calls (sem {} (.fetch true (.set [⟨1, 3⟩, ⟨7, 0⟩]) sampleFetch)) := by
   decide +kernel
+
+
+/-! ## any order of the map-ordered items
+
+  `Delivers {} cfg tag c calls`: the writer mirror produces segments for `c`, and EVERY way of writing them
+  (`Lin`: the items of a `Seg.anyOrder` segment — what the client takes out of a Go map — in any permutation)
+  is read by the server mirror as `calls`.  The four families that have such items: -/
+
+/-- STATUS, any order of the items -/
+theorem cmd_delivers_status (cfg : Cfg) (tag : Nat) (m : List Nat) (o : StatusOpts) (hm : MailboxOK m)
+    (ho : o.highestModSeq = false) :
+    Delivers {} cfg tag (.status m o) (sem cfg (.status m o)) :=
+  status_delivers cfg tag m o hm ho
+
+/-- LIST, any order of the items inside RETURN (STATUS (…)) -/
+theorem cmd_delivers_list (cfg : Cfg) (tag : Nat) (ref pat : List Nat) (o : ListOpts)
+    (hr : MailboxOK ref) (hp : MailboxOK pat) (ho : ListOK o) :
+    Delivers {} cfg tag (.list ref [pat] o) (sem cfg (.list ref [pat] o)) :=
+  list_delivers cfg tag ref pat o hr hp ho
+
+/-- SEARCH / UID SEARCH, any order of the RETURN options -/
+theorem cmd_delivers_search (cfg : Cfg) (tag : Nat) (uid : Bool) (c : Crit) (o : Option SearchOpts) (hok : CritOK c)
+    (hd : depth c < maxListDepth) :
+    Delivers {} cfg tag (.search uid c o) (sem cfg (.search uid c o)) :=
+  search_delivers cfg tag uid c o hok hd
+
+/-- FETCH / UID FETCH, any order of the scalar items (BODY / BODYSTRUCTURE, ENVELOPE, FLAGS, INTERNALDATE, RFC822.SIZE) -/
+theorem cmd_delivers_fetch (cfg : Cfg) (tag : Nat) (uid : Bool) (s : NSet) (o : FetchOpts)
+    (hs : SetOK s) (hnf : SetNF s) (ho : FetchOK o) :
+    Delivers {} cfg tag (.fetch uid s o) (sem cfg (.fetch uid s o)) :=
+  fetch_delivers cfg tag uid s o hs hnf ho
+
+/-- a command without map-ordered items has exactly one written form, so `roundTrip` already speaks for every
+    form (here for the commands that are one protocol command with one fixed segment) -/
+theorem cmd_delivers_of_round_trip (cfg : Cfg) (tag : Nat) (c : Cmd) (body : Wire) (calls : List Cmd)
+    (hw : wBody {} cfg c = .ok [[.fixed body]]) (hr : roundTrip {} cfg tag c = .calls calls) :
+    Delivers {} cfg tag c calls :=
+  delivers_of_fixed cfg tag c body calls hw hr
+
+/-- e.g. LOGIN -/
+example (cfg : Cfg) (tag : Nat) (u p : Str) (hu : strOk u = true) (hp : strOk p = true) :
+    Delivers {} cfg tag (.login u p) (sem cfg (.login u p)) :=
+  cmd_delivers_of_round_trip cfg tag _ _ _ rfl (cmd_fidelity_login cfg tag u p hu hp)
+
+/-- non-vacuity of `Lin`: `STATUS INBOX (UNSEEN MESSAGES)` is one of the written forms of a call whose listed order
+    is `(MESSAGES UNSEEN)` -/
+example : Lin [.fixed (kw "STATUS INBOX ("), .anyOrder [kw "MESSAGES", kw "UNSEEN"], .fixed (kw ")")]
+    (kw "STATUS INBOX (" ++ (joinSp [kw "UNSEEN", kw "MESSAGES"] ++ (kw ")" ++ []))) :=
+  Lin.cons _ _ _ _ (Seg.Lin.fixed _) (Lin.cons _ _ _ _ (Seg.Lin.anyOrder _ _ (List.Perm.swap _ _ _))
+    (Lin.cons _ _ _ _ (Seg.Lin.fixed _) Lin.nil))
 
 end GoImap.C02
